@@ -2,7 +2,9 @@ package mon
 
 import (
 	"bytes"
+
 	"fmt"
+	"github.com/wizenheimer/comet"
 	"io"
 	"math/rand/v2"
 	"regexp"
@@ -140,6 +142,15 @@ func runC07(r *ev.Run) {
 			st.mutate(r.Rng("cont", ci), reloaded, nOps)
 			a, b := st.answer(st.source), st.answer(reloaded)
 			if d := diffAnswers(a, b); d != "" {
+				if r.Verbose() && kind == "hnsw" {
+					for name, x := range map[string]any{"source": st.source, "reloaded": reloaded} {
+						g := comet.VerifHNSWGraph(x.(*comet.HNSWIndex))
+						fmt.Printf("DEBUG %s: entry=%d maxLevel=%d deleted=%v\n", name, g.EntryPoint, g.MaxLevel, g.Deleted)
+						for id, n := range g.Nodes {
+							fmt.Printf("DEBUG   node %d level=%d edges=%v vec=%v\n", id, n.Level, n.Edges, n.Vector)
+						}
+					}
+				}
 				rep("ser."+kind+".continuation-differs", fmt.Sprintf("after %d further ops source and reloaded index answer differently: %s", nOps, d))
 			}
 			r.Count("continuations", 1)
